@@ -164,6 +164,26 @@ func (c *Ctx) Section(name string, n int64, f func(i int64, r *gen.Rand)) {
 	}
 }
 
+// SectionFirst is for workloads that depend on what the process did FIRST with the library (lazily built tables,
+// first user of a pool): it must be called at the very start of a property, before anything else touches the library.
+// Batch b runs variant b (if b < n) and nothing else of the section, so that every variant gets a process of its
+// own; a replay (-only name:idx) is a fresh process as well and runs the named variant first.
+func (c *Ctx) SectionFirst(name string, n int64, f func(i int64, r *gen.Rand)) {
+	if c.OnlyIdx >= 0 {
+		if c.OnlySec == name {
+			c.runCase(name, c.OnlyIdx, f)
+		}
+
+		return
+	}
+	if c.OnlySec != "" && c.OnlySec != name {
+		return
+	}
+	if int64(c.Batch) < n {
+		c.runCase(name, int64(c.Batch), f)
+	}
+}
+
 // SectionSerial is like Section but runs every index in every batch 0 only
 // (for small enumerations that are not worth splitting).
 func (c *Ctx) SectionSerial(name string, n int64, f func(i int64, r *gen.Rand)) {
